@@ -599,7 +599,11 @@ def parse_cbmc(out, r, rc):
     u = r.unit
     uw = [o for o in r.obligations if o['cls'] == 'unwind' and o['status'] == 'FAILURE']
     if uw:
-        raise Undecided('unwinding assertion %s failed (bound %s too small)' % (uw[0]['id'], u.unwind or DEFAULT_UNWIND))
+        # A failed unwinding assertion means executions beyond the bound were not explored: nothing can be PROVED from this run.  A failure of another obligation on
+        # an explored path is still a genuine counterexample (bounded model checking is sound for the bugs it finds): report it; otherwise the run is undecided.
+        r.obligations = [o for o in r.obligations if o['cls'] != 'unwind']
+        if not any(o['status'] == 'FAILURE' for o in r.obligations):
+            raise Undecided('unwinding assertion %s failed (bound %s too small)' % (uw[0]['id'], u.unwind or DEFAULT_UNWIND))
     r.status = 'fail' if any(o['status'] == 'FAILURE' for o in r.obligations) else 'pass'
     if r.status == 'pass':
         if r.canary != 'FAILURE':
